@@ -1,7 +1,10 @@
 """Shared machinery of /verif/bin/check: build the harness from /repo's
 working tree, run TLC (exhaustive configurations, behaviour generation, trace
 validation), collect evidence, apply the known-findings file, exit codes."""
-import json, os, re, shutil, subprocess, sys, time
+import itertools, json, os, re, shutil, subprocess, sys, threading, time
+
+_tlc_counter = itertools.count(1)
+_report_lock = threading.Lock()
 
 VERIF = os.path.dirname(os.path.dirname(os.path.abspath(__file__)))
 SPEC = os.path.join(VERIF, "spec")
@@ -53,8 +56,7 @@ class Ctx:
         """Run TLC in a scratch copy of the spec directory.  Returns the parsed
         result; raises Broken on timeouts / TLC errors that are not property
         results."""
-        self.tlc_n += 1
-        d = os.path.join(self.work, "tlc%d" % self.tlc_n)
+        d = os.path.join(self.work, "tlc%d" % next(_tlc_counter))
         shutil.copytree(SPEC, d)
         os.makedirs(os.path.join(d, "tmp"), exist_ok=True)
         if cfg_text is not None:
@@ -131,8 +133,7 @@ class Ctx:
             num, depth = simulate
             extra = ["-simulate", "num=%d" % num, "-depth", str(depth), "-seed", str(self.seed)]
             workers = 1
-        self.tlc_n += 1
-        d = os.path.join(self.work, "tlc%d" % self.tlc_n)
+        d = os.path.join(self.work, "tlc%d" % next(_tlc_counter))
         shutil.copytree(SPEC, d)
         os.makedirs(os.path.join(d, "tmp"), exist_ok=True)
         with open(os.path.join(d, cfg_name), "w") as f:
@@ -246,8 +247,10 @@ class Ctx:
         if kf is not None:
             self.known_hits.append((kf, cat))
             return
-        self.nfail += 1
-        path = os.path.join(self.work, "fail-%d.json" % self.nfail)
+        with _report_lock:
+            self.nfail += 1
+            nf = self.nfail
+        path = os.path.join(self.work, "fail-%d.json" % nf)
         replay = dict(replay, property=self.prop, category=cat, detail=detail.strip()[:4000], seed=self.seed,
                       tier=self.tier)
         with open(path, "w") as f:
